@@ -1618,13 +1618,37 @@ func runSkipDescent(c *Ctx, r *RuleRun) {
 			}
 			kind := "other"
 			k, isK := constInt(bo.Y)
+			// which way does the loop go on when the comparison is true / false?
+			staysOn := func(truth bool) bool {
+				for _, ref := range *bo.Referrers() {
+					iff, isIf := ref.(*ssa.If)
+					if !isIf {
+						continue
+					}
+					blk := iff.Block()
+					t := blk.Succs[0]
+					if !truth {
+						t = blk.Succs[1]
+					}
+					return t == blk || reaches(t, blk)
+				}
+				return false
+			}
+			nfText := o.nf(bo)
 			switch {
 			case isK && k == 0 && bo.Op == token.LSS && inLoop(bo.Block()):
 				kind = "advance"
-			case isK && k == 0 && bo.Op == token.EQL:
+			case isK && k == 0 && bo.Op == token.GEQ && inLoop(bo.Block()) && staysOn(false) && !staysOn(true):
+				// the same test written negated (`if cmp >= 0 { break }`)
+				kind = "advance"
+				nfText = "(" + o.nf(call) + " < 0)"
+			case isK && k == 0 && (bo.Op == token.EQL || bo.Op == token.NEQ):
 				kind = "match"
 			}
-			sites = append(sites, site{f, o.nf(bo), kind, instrPos(bo)})
+			if kind == "advance" && bo.Op == token.LSS {
+				nfText = "(" + o.nf(call) + " < 0)"
+			}
+			sites = append(sites, site{f, nfText, kind, instrPos(bo)})
 		})
 	}
 	// descents: advance sites whose loop is nested (level loop) — all must agree
